@@ -455,7 +455,8 @@ def gen_valid(rng, cls, gates, n, dev, shots_max, idx):
             "layout": V("intlist", v=rng.choice([labels, list(range(n)), []])),
             "psi0": V("ndarray", shape=[2 ** n], fill=fill, seed=idx),
             "shots": V("int", v=rng.randint(1, shots_max)),
-            "device": V("device", name=dev, wrap=rng.choice(["dict", "dict", "dict", "ordered"])),
+            "device": V("device", name=dev, wrap=rng.choice(["dict", "dict", "dict", "ordered"]),
+                        truncate=(max(labels) + 1 if rng.random() < 0.3 else None)),   # boundary: len(T1) = nqubit for labels 0..n-1
             "nqubit": V("int", v=n)}
 
 
@@ -479,46 +480,63 @@ DEVICE_NOTMAP = [V("none"), V("intlist", v=[1, 2, 3]), V("device", name="ibm_kyi
                  V("int", v=5), V("tuple", n=2)]
 
 
-def gen_malformed(rng, variants_per_combo, thorough):
+def psi0_bad_variants(good):
+    return [V("ndarray", shape=[good + 1]), V("ndarray", shape=[good - 1]), V("ndarray", shape=[2 * good]),
+            V("ndarray", shape=[good // 2]), V("ndarray", shape=[good, 1]), V("ndarray", shape=[1, good]), V("ndarray", shape=[]),
+            V("ndarray", shape=[0]), V("matrix", shape=[1, good]),
+            V("list", n=good + 1), V("list", n=good - 1), V("tuple", n=2 * good), V("list", n=0)]
+
+
+def malformed_case(rng, combo, pick):
+    """one malformed call; `pick(name, variants)` selects the variant of each active defect class"""
+    sh, ps, ms, nqm, dv = combo
+    n = rng.randint(1, 3)
+    c = base_case(rng, n, cls=rng.choice(CLASSES), gates=rng.choice(["noise_free", {"inj": 5}]))
+    c["family"] = "malformed"
+    c["defects"] = [x for x in (sh != "ok" and "shots-" + sh, ps != "ok" and "psi0", ms != "ok" and "nomeas",
+                                nqm != "ok" and "nq>used", dv != "ok" and "device-" + dv) if x]
+    if ms == "none":
+        c["circ"]["ops"] = [o for o in c["circ"]["ops"] if o[0] != "measure"]
+    nq = n + pick("more", [1, 2]) if nqm == "more" else n
+    c["nqubit"] = V("int", v=nq)
+    if sh == "below": c["shots"] = copy.deepcopy(pick("below", SHOTS_BELOW))
+    if sh == "nonint": c["shots"] = copy.deepcopy(pick("nonint", SHOTS_NONINT))
+    good = 2 ** nq
+    c["psi0"] = V("ndarray", shape=[good], fill="basis0") if ps == "ok" else copy.deepcopy(pick("psi0", psi0_bad_variants(good)))
+    if dv == "short":
+        k, t1 = pick("short", [(nq - 1, None), (0, None), (nq - 1, "list"), (max(0, nq - 2), None)])
+        c["device"] = V("device", name="ibm_kyiv", truncate=k, T1=t1)
+    if dv == "notmap":
+        c["device"] = copy.deepcopy(pick("notmap", DEVICE_NOTMAP))
+    return c
+
+
+def gen_malformed(rng, variants_per_combo):
     """all combinations of the named defect classes: shots {ok, below one, not an integer} × psi0 {ok, wrong length} ×
-    measurement {yes, none} × nqubit {= used, > used} × device {ok, covers fewer, not a mapping}; the variant of each
-    defect is drawn at random (thorough: several draws)"""
+    measurement {yes, none} × nqubit {= used, > used} × device {ok, covers fewer, not a mapping}.  Combinations with a
+    single defect enumerate *every* variant of it (boundary values included: shots 0 / False, nqubit = used+1,
+    len(T1) = nqubit-1, length 2^n±1); combinations of several defects draw their variants at random."""
     out = []
+    nvar = {"below": len(SHOTS_BELOW), "nonint": len(SHOTS_NONINT), "psi0": len(psi0_bad_variants(4)), "more": 2, "short": 4,
+            "notmap": len(DEVICE_NOTMAP)}
     for sh in ("ok", "below", "nonint"):
         for ps in ("ok", "bad"):
             for ms in ("ok", "none"):
                 for nqm in ("ok", "more"):
                     for dv in ("ok", "short", "notmap"):
-                        if (sh, ps, ms, nqm, dv) == ("ok", "ok", "ok", "ok", "ok"):
+                        combo = (sh, ps, ms, nqm, dv)
+                        active = sum(x != "ok" for x in combo)
+                        if active == 0:
                             continue
-                        for _ in range(variants_per_combo):
-                            n = rng.randint(1, 3)
-                            c = base_case(rng, n, cls=rng.choice(CLASSES), gates=rng.choice(["noise_free", {"inj": 5}]))
-                            c["family"] = "malformed"
-                            c["defects"] = [x for x in (sh != "ok" and "shots-" + sh, ps != "ok" and "psi0",
-                                                       ms != "ok" and "nomeas", nqm != "ok" and "nq>used",
-                                                       dv != "ok" and "device-" + dv) if x]
-                            if ms == "none":
-                                c["circ"]["ops"] = [o for o in c["circ"]["ops"] if o[0] != "measure"]
-                            nq = n + rng.randint(1, 2) if nqm == "more" else n
-                            c["nqubit"] = V("int", v=nq)
-                            if sh == "below": c["shots"] = copy.deepcopy(rng.choice(SHOTS_BELOW))
-                            if sh == "nonint": c["shots"] = copy.deepcopy(rng.choice(SHOTS_NONINT))
-                            good = 2 ** nq
-                            if ps == "ok":
-                                c["psi0"] = V("ndarray", shape=[good], fill="basis0")
-                            else:
-                                c["psi0"] = copy.deepcopy(rng.choice([
-                                    V("ndarray", shape=[good + 1]), V("ndarray", shape=[good - 1]), V("ndarray", shape=[2 * good]),
-                                    V("ndarray", shape=[good, 1]), V("ndarray", shape=[1, good]), V("ndarray", shape=[]),
-                                    V("ndarray", shape=[0]), V("matrix", shape=[1, good]),
-                                    V("list", n=good + 1), V("list", n=good - 1), V("tuple", n=2 * good), V("list", n=0)]))
-                            if dv == "short":
-                                c["device"] = V("device", name="ibm_kyiv", truncate=rng.randrange(nq),
-                                                T1=rng.choice([None, None, "list"]))
-                            if dv == "notmap":
-                                c["device"] = copy.deepcopy(rng.choice(DEVICE_NOTMAP))
-                            out.append(c)
+                        if active == 1 and ms == "ok":
+                            name = {"below": "below", "nonint": "nonint"}.get(sh) or (ps == "bad" and "psi0") or \
+                                   (nqm == "more" and "more") or dv
+                            for j in range(nvar[name]):
+                                for _ in range(2):
+                                    out.append(malformed_case(rng, combo, lambda nm, vs, j=j: vs[j]))
+                        else:
+                            for _ in range(variants_per_combo):
+                                out.append(malformed_case(rng, combo, lambda nm, vs: rng.choice(vs)))
     return out
 
 
@@ -740,7 +758,7 @@ def main(ctx):
                     dev = rng.choice(["ibm_kyiv", "ibm_kyoto"])
                     cases.append(gen_valid(rng, cls, g, n, dev, 50 if th and rng.random() < 0.2 else 5, idx))
     # ---- malformed stream
-    cases += gen_malformed(rng, 6 if th else 2, th)
+    cases += gen_malformed(rng, 8 if th else 2)
     # ---- D7 probe (information only: other properties own it)
     d7 = base_case(rng, 1, cls="Circuit"); d7["family"] = "d7-probe"
     cases.append(d7)
